@@ -65,7 +65,7 @@ func c26fmtTable(rt map[string]multidb.Route) []string {
 
 func runC26(c *ev.Ctx) {
 	c.Rule = "random routing tables (default route, 0-4 exact routes, 0-3 pattern routes incl. pairs such as epoch-%d / epoch-%s that match the same request, NoDrop flags) over two database types backed by dirty-flag producers on in-memory disks; requests from a pool of exact, nested (a/x/y) and pattern-matching paths. " +
-		"Oracle: (1) RouteOf(req) is identical across 30 producers built from the same table and across repeated calls, and (1b) identical to the sequential answer while 12 goroutines route different requests through the same %d / %s pattern routes of one producer; (2) for a random sequence of OpenDB calls the outcome is predicted from the harness' own log: refused iff the same request was logged with another table or another request's table in the same database is a prefix of / prefixed by the new one; " +
+		"Oracle: (1) RouteOf(req) is identical across 30 producers built from the same table and across repeated calls, and (1b) identical to the sequential answer while 12 goroutines route different requests through the same %d / %s pattern routes of one producer; (2) for a random sequence of OpenDB calls, interleaved with Close+Drop of an opened store (which drops its whole database with the records in it), the outcome is predicted from the harness' own log: refused iff the same request was logged with another table or another request's table in the same database is a prefix of / prefixed by the new one; " +
 		"every successfully opened store, after unique marker keys were written through all of them, shows exactly its own markers (metadata keys ignored); (3) after Flush+Close and a new producer over the same disks every logged request routes and opens as before with its markers visible; " +
 		"(4) Verify() on a producer with a mutated table (other name, type, table extended, table replaced by an unrelated one, route removed or added, whole type migrated) fails iff some logged request now routes to another type, name or table. (5) opening the logged requests through the last mutated producer is refused / allowed by the same rule as (2) over the records left in the databases, and an unchanged request still shows its markers. non-trivial = distinct tables with >=1 pattern route, >=1 refused overlap, >=2 stores in one database and a mutated table that moves a logged request"
 	c.Assumptions = []string{"table names are not prefixes of the metadata keys (property's exclusion)", "each database type has its own disk"}
@@ -144,6 +144,33 @@ func c26Case(c *ev.Ctx, r *rand.Rand, caseN int) {
 	refusedOverlap := 0
 	var seq []string
 	for k := 0; k < 4+r.Intn(10); k++ {
+		if len(okStores) > 0 && r.Intn(6) == 0 {
+			// one of the opened stores is closed and dropped: that drops its whole database, records included; every
+			// request living there starts from scratch (their old handles are not used any more)
+			var names []string
+			for q := range okStores {
+				names = append(names, q)
+			}
+			sort.Strings(names)
+			o := okStores[names[r.Intn(len(names))]]
+			if !o.route.NoDrop {
+				l := loc{o.route.Type, o.route.Name}
+				seq = append(seq, fmt.Sprintf("Close+Drop(%q) -> database %s/%q dropped", o.req, l.T, l.N))
+				if pn, _ := ev.Try(func() { _ = o.db.Close(); o.db.Drop() }); pn != nil {
+					m := desc()
+					m["opens"], m["panic"] = seq, fmt.Sprint(pn)
+					c.Violation("drop-panics", m)
+					return
+				}
+				for q, x := range okStores {
+					if (loc{x.route.Type, x.route.Name}) == l {
+						delete(okStores, q)
+					}
+				}
+				delete(logs, l)
+				c.Count("databases_dropped_between_opens", 1)
+			}
+		}
 		req := c26reqPool[r.Intn(len(c26reqPool))]
 		route := p.RouteOf(req)
 		l := loc{route.Type, route.Name}
